@@ -160,18 +160,141 @@ class Script:
       self.raw[i] = make(i)
       self.fn[i] = spy_on(self.raw[i]) if spied else self.raw[i]
 
+  # -- static builds (C17): hand-written text, template+registry, Factory, exec'd to_code text ------
+  def registered(self, i, sg):
+    c = self.c
+    if sg in INNER3:
+      if (i, sg) in self.eff:
+        return True
+      if sg == "INIT_SIGNAL":
+        return bool(c["init"][i - 1]) or c["istyle"][i - 1] == "h"
+      return (c["estyle"] if sg == "ENTRY_SIGNAL" else c["xstyle"])[i - 1] == "h"
+    return c["react"][i - 1][c["sigs"].index(sg)][0] != "none"
+
+  def answer_cb(self, hsm, i, e, sg):
+    """body of a registered callback: always answers (never falls through)"""
+    from miros.event import return_status as rs
+    self.tick()
+    eid = e.payload if isinstance(e.payload, int) and not isinstance(e.payload, bool) else 0
+    rec = [sg, i, "?", [], eid]
+    self.log.append(rec)
+    self.stack.append(rec)
+    try:
+      c = self.c
+      st = rs.HANDLED
+      if sg in INNER3:
+        for ef in self.eff.get((i, sg), []):
+          self.do_effect(hsm, ef)
+        if sg == "INIT_SIGNAL" and c["init"][i - 1] and self.init_enabled:
+          st = hsm.trans(self.fn[c["init"][i - 1]])
+      else:
+        kind, tgt = c["react"][i - 1][c["sigs"].index(sg)]
+        if kind == "unh":
+          st = rs.UNHANDLED
+        else:
+          for ef in self.eff.get((i, sg), []):
+            self.do_effect(hsm, ef)
+          if kind == "tran":
+            st = hsm.trans(self.fn[tgt])
+      rec[2] = {rs.HANDLED: "HANDLED", rs.UNHANDLED: "UNHANDLED", rs.TRAN: "TRAN"}.get(st, str(st))
+      return st
+    finally:
+      self.stack.pop()
+
+  def callbacks(self):
+    me = self
+    cbs = {}
+
+    def make(i, sg):
+      def cb(chart, e):
+        return me.answer_cb(chart, i, e, sg)
+      cb.__name__ = "cb_s%d_%s" % (i, sg)
+      return cb
+    for i in range(1, self.n + 1):
+      for sg in list(INNER3) + list(self.c["sigs"]):
+        if self.registered(i, sg):
+          cbs[(i, sg)] = make(i, sg)
+    return cbs
+
+  def build_template(self, hsm, use_factory=False):
+    """state_method_template + register_signal_callback + register_parent (or Factory.create/catch/nest)"""
+    from miros.hsm import state_method_template
+    from miros.event import signals
+    cbs = self.callbacks()
+    if use_factory:
+      bps = {i: hsm.create(state="s%d" % i) for i in range(1, self.n + 1)}
+      for i in range(1, self.n + 1):
+        self.fn[i] = self.raw[i] = bps[i].to_method()
+      for (i, sg), cb in sorted(cbs.items()):
+        bps[i].catch(signal=getattr(signals, sg), handler=cb)
+      for i in range(1, self.n + 1):
+        p = self.c["par"][i - 1]
+        hsm.nest(self.fn[i], parent=self.fn[p] if p else None)
+    else:
+      for i in range(1, self.n + 1):
+        self.fn[i] = self.raw[i] = state_method_template("s%d" % i)
+      for (i, sg), cb in sorted(cbs.items()):
+        hsm.register_signal_callback(self.fn[i], getattr(signals, sg), cb)
+      for i in range(1, self.n + 1):
+        p = self.c["par"][i - 1]
+        hsm.register_parent(self.fn[i], self.fn[p] if p else hsm.top)
+    return cbs
+
+  def hand_text(self):
+    """the chart as a user would write it by hand (the idiom of the docs)"""
+    out = []
+    for i in range(1, self.n + 1):
+      lines = ["@spy_on", "def s%d(chart, e):" % i, "  status = return_status.UNHANDLED"]
+      kw = "if"
+      for sg in list(INNER3) + list(self.c["sigs"]):
+        if self.registered(i, sg):
+          lines.append("  %s(e.signal == signals.%s):" % (kw, sg))
+          lines.append("    status = cb_s%d_%s(chart, e)" % (i, sg))
+          kw = "elif"
+      p = self.c["par"][i - 1]
+      if kw == "if":
+        lines.append("  status, chart.temp.fun = return_status.SUPER, %s" % ("s%d" % p if p else "chart.top"))
+      else:
+        lines.append("  else:")
+        lines.append("    status, chart.temp.fun = return_status.SUPER, %s" % ("s%d" % p if p else "chart.top"))
+      lines.append("  return status")
+      out.append("\n".join(lines) + "\n")
+    return out
+
+  def build_from_text(self, texts, cbs):
+    from miros.hsm import spy_on
+    from miros.event import signals, return_status
+    ns = {"spy_on": spy_on, "signals": signals, "return_status": return_status}
+    for (i, sg), cb in cbs.items():
+      ns[cb.__name__] = cb
+    for t in texts:
+      exec(compile(t, "<generated chart text>", "exec"), ns)
+    for i in range(1, self.n + 1):
+      self.fn[i] = self.raw[i] = ns["s%d" % i]
+
   def index_of(self, f, hsm):
     if f is None:
       return -1
     for i in range(1, self.n + 1):
       if f is self.fn[i] or f is self.raw[i] or f == self.fn[i]:
         return i
+    if self.c.get("build", "dyn") != "dyn":
+      w = getattr(f, "__wrapped__", None)
+      for i in range(1, self.n + 1):
+        wi = getattr(self.fn[i], "__wrapped__", None)
+        if (w is not None and w is wi) or f is wi:
+          return i
     try:
       if f == hsm.top or getattr(f, "__name__", "") == "top":
         return 0
     except Exception:
       pass
     return -2
+
+
+def registered_list(chart):
+  sc = Script(chart)
+  return [[i, sg] for i in range(1, chart["n"] + 1) for sg in list(INNER3) + list(chart["sigs"]) if sc.registered(i, sg)]
 
 
 def make_host(kind, script, cap):
@@ -183,6 +306,9 @@ def make_host(kind, script, cap):
     base = mh.InstrumentedHsmEventProcessor
   elif kind == "queued":
     base = mh.HsmWithQueues
+  elif kind == "factory":
+    import miros.activeobject as ma
+    base = ma.Factory
   else:
     raise ValueError(kind)
 
@@ -193,7 +319,7 @@ def make_host(kind, script, cap):
       script.tick()
       return super().top(*args)
   Host.__name__ = "Host_" + kind
-  return Host()
+  return Host("c") if kind == "factory" else Host()
 
 
 class Rings:
@@ -213,6 +339,7 @@ class Rings:
     mh.HsmEventProcessor.SPY_RING_BUFFER_SIZE, mh.HsmEventProcessor.TRC_RING_BUFFER_SIZE = self.old
 
 
+_SPY_RE = re.compile(r"^([A-Za-z_0-9]+):s(\d+)$")
 _TRC_RE = re.compile(r"^\n?\[([^\]]*)\] \[([^\]]*)\] e->(.*)\(\) (.*)->(.*)\n?$", re.S)
 
 
@@ -230,7 +357,7 @@ def run_chart(chart, ops):
   spied = chart.get("spied", True)
   cap = chart.get("cap", 500)
   script = Script(chart)
-  script.build_dyn(spied)
+  build = chart.get("build", "dyn")
   clock = FakeClock(chart.get("clock", "fine"))
   old_clock = mh.stdlib_datetime
   mh.stdlib_datetime = clock
@@ -239,9 +366,36 @@ def run_chart(chart, ops):
   try:
     with Rings(chart.get("spy_ring", 500), chart.get("trc_ring", 500)):
       hsm = make_host(host_kind, script, cap)
+      hsm0 = make_host(host_kind, script, cap) if build == "tocode" else None
     script.hsm = hsm
-    queued = host_kind == "queued"
-    if queued:
+    queued = host_kind in ("queued", "factory")
+    build_rec = None
+    try:
+      if build == "dyn":
+        script.build_dyn(spied)
+      elif build == "template":
+        script.build_template(hsm)
+      elif build == "factory":
+        script.build_template(hsm, use_factory=True)
+      elif build == "hand":
+        script.build_from_text(script.hand_text(), script.callbacks())
+      elif build == "tocode":
+        cbs = script.build_template(hsm0, use_factory=(host_kind == "factory"))
+        texts = [hsm0.to_code(script.fn[i]) for i in range(1, script.n + 1)]
+        script.build_from_text(texts, cbs)
+        chart["_texts"] = texts
+      else:
+        raise ValueError(build)
+    except Exception as ex:  # noqa
+      build_rec = {"k": "build", "arg": build, "ret": "", "outcome": "raised:" + type(ex).__name__, "exc": repr(ex)[:200]}
+    if build != "dyn":
+      events.append(build_rec or {"k": "build", "arg": build, "ret": "", "outcome": "ok"})
+      for r0 in events:
+        r0.update({"log": [], "marks": [], "cur": -1, "temp": -1, "name": "", "fn": -1, "instr": True, "rtc": [], "full": [],
+                   "trc": [], "q": [], "dq": [], "cs": "", "live_spy": [], "live_trc": [], "live_trc_raw": [], "spycalls": []})
+      if build_rec:
+        return events
+    if queued and host_kind != "factory":
       hsm.name = chart.get("name", "c")
       if chart.get("live_spy"):
         hsm.live_spy = True
@@ -259,7 +413,10 @@ def run_chart(chart, ops):
         k = op[0]
         if k == "start":
           script.init_enabled = (len(op) < 3 or op[2] != "noinit")
-          hsm.start_at(script.fn[op[1]])
+          if host_kind == "factory":
+            mh.HsmWithQueues.start_at(hsm, script.fn[op[1]])   # the chart without the active object's thread
+          else:
+            hsm.start_at(script.fn[op[1]])
           script.init_enabled = True
           started = True
         elif k == "dispatch":
@@ -301,6 +458,8 @@ def run_chart(chart, ops):
         rec["outcome"] = "raised:" + type(ex).__name__
         rec["exc"] = repr(ex)[:200]
       rec["log"] = [[r[0], r[1], r[2], r[3], r[4]] for r in script.log]
+      if rec["outcome"] == "hang":
+        rec["log"] = rec["log"][:40]       # the runaway call sequence is not needed to reject the op
       rec["marks"] = list(script.opmarks)
       if started or rec["outcome"] != "ok":
         try:
@@ -323,7 +482,7 @@ def run_chart(chart, ops):
       else:
         rec["rtc"], rec["full"], rec["trc"] = [], [], []
       if queued:
-        rec["q"] = [[e.signal_name, e.payload if isinstance(e.payload, int) else 0] for e in hsm.queue]
+        rec["q"] = [[e.signal_name, e.payload if isinstance(e.payload, int) else 0] for e in getattr(hsm.queue, "deque", hsm.queue)]
         rec["dq"] = [[e.signal_name, e.payload if isinstance(e.payload, int) else 0] for e in hsm.defer_queue]
         cs = None
         try:
@@ -333,6 +492,12 @@ def run_chart(chart, ops):
         rec["cs"] = cs if isinstance(cs, str) else ""
       else:
         rec["q"], rec["dq"], rec["cs"] = [], [], ""
+      sc = []
+      for line in rec["rtc"]:
+        m = _SPY_RE.match(line)
+        if m:
+          sc.append([m.group(1), int(m.group(2))])
+      rec["spycalls"] = sc
       rec["live_spy"] = list(live_spy_lines)
       rec["live_trc"] = [parse_trace_line(s) for s in live_trc_lines]
       rec["live_trc_raw"] = list(live_trc_lines)
